@@ -45,6 +45,19 @@ CONVERSIONS = [
 
 CONV_SCALE = {json.dumps([own, to]): sc for own, to, sc in CONVERSIONS if to is not None}
 
+# callable `fmt`: name -> function (value[, uncertainty]) -> text.  Well-formed ones return `[-]d.ddd[e[+-]dd]`, the others are the malformed stream.
+CALLBACKS = {
+    'e3': lambda x: '%.3e' % x, 'e1': lambda x: '%.1e' % x, 'e0': lambda x: '%.0e' % x, 'f2': lambda x: '%.2f' % x,
+    'g7': lambda x: '%.7g' % x, 'repr': lambda x: repr(float(x)), 'E2': lambda x: '%.2E' % x,
+    'two_e': lambda x: '%.2e' % x + 'e1', 'bad_exp': lambda x: '%.2fex' % x, 'empty_exp': lambda x: '%.1fe' % x,
+    'dot_exp': lambda x: '%.2e' % x + '.5',
+}
+CALLBACKS_UNC = {
+    'paren_e': lambda x, u: '%.3f(%d)e4' % (x, round(abs(u) * 1000) % 100), 'plain2': lambda x, u: '%.2f(%.2f)' % (x, u),
+    'e_pm': lambda x, u: '%.3e' % x, 'two_e': lambda x, u: '%.2e(%.1e)' % (x, u), 'ignore_u': lambda x, u: '%.4g' % x,
+}
+CB_NUM = re.compile(r'^(?P<sig>-?\d+(?:\.\d+)?(?:\(-?\d+\))?)(?:e(?P<exp>[+-]?\d+))?$')
+
 TABLE_KEYS = ['H2O', 'H+', 'OH-', 'Na+', 'Cl-', 'Fe+3', 'NH4+', 'SO4-2', 'H2', 'O2', 'CO2', 'NH3']
 CONC_UNITS = [[['molar', 1]], [['mM', 1]], [['uM', 1]], [['mol', 1], ['metre', -3]], [['mol', 1], ['dm', -3]], [['molal', 1]],
               [['mol', 1], ['kg', -1]], [['gram', 1], ['dm', -3]]]
@@ -349,7 +362,9 @@ class C20(Property):
         'positional containers is decided by correspondence and by the oracle (every cell read back: value given for THAT substance in ITS unit, unit after it)',
         'string-level reading of the LaTeX / unicode / HTML mark-up (theorems give the structure: significand text, integer exponent, fixed '
         'templates; the mark-up is read back by the oracle only)',
-        'fmt given as a callable; numbers carrying .uncertainty other than quantities.UncertainQuantity; -0.0, inf, nan',
+        'fmt given as a callable: the text the callback returns is an opaque input (callback_text_spec proves what _number_to_X does with any such text); '
+        'that Python calls fmt(mag) / fmt(mag, uncertainty) with the unitless magnitude is decided by correspondence and oracle (11 + 5 callbacks incl. malformed texts)',
+        'numbers carrying .uncertainty other than quantities.UncertainQuantity; -0.0, inf, nan; callback texts with blanks/underscores in the exponent (Python int() accepts them, the model refuses)',
         'Reaction printing: the reaction text before the parameter, dimensionality printers, parameters that are rate-expression objects with their '
         'own string method (only quantity / float / int / str / None parameters are exercised)',
         'roman for negative ints (Python floor-division behaviour) is outside the model',
@@ -360,7 +375,7 @@ class C20(Property):
                ('chempy/printing/numbers.py', 'number_to_scientific_latex'), ('chempy/printing/numbers.py', 'number_to_scientific_unicode'),
                ('chempy/printing/numbers.py', 'number_to_scientific_html'),
                ('chempy/printing/string.py', 'StrPrinter._Reaction_param_str'), ('chempy/printing/string.py', 'StrPrinter._print_Reaction'),
-               ('chempy/printing/printer.py', 'Printer'), ('chempy/printing/table.py', 'as_per_substance_html_table'),
+               ('chempy/printing/printer.py', 'Printer._get'), ('chempy/printing/table.py', 'as_per_substance_html_table'),
                ('chempy/printing/table.py', 'Table._html'))
 
     # ---- generation ---------------------------------------------------------------------------
@@ -456,6 +471,15 @@ class C20(Property):
             for p in (1, 3, 4, 5, 6):
                 cases.append({'op': 'fmt_g', 'p': p, 'xf': float(x).hex()})
                 cases.append({'op': 'number_to_x', 'fmt': FMTS[(p + int(abs(x))) % 3], 'p': p, 'xf': float(x).hex(), 'unit': None})
+        # `fmt` given as a callback (with / without uncertainty, with / without unit, every renderer, well-formed and malformed texts)
+        for name in CALLBACKS:
+            for x in (1e5, 3.14159e-7, -2.5, 1.0004e5, 12345.678):
+                cases.append({'op': 'number_to_x_cb', 'fmt': rng.choice(FMTS), 'cb': name, 'xf': float(x).hex(),
+                              'unit': rng.choice([None, rng.choice(UNITS)])})
+        for name in CALLBACKS_UNC:
+            for x, xe in ((1e5, 30.0), (3.14159, 0.029), (-2.5e-7, 3e-9)):
+                cases.append({'op': 'number_to_x_cb', 'fmt': rng.choice(FMTS), 'cb': name, 'xf': float(x).hex(), 'xef': float(xe).hex(),
+                              'unit': rng.choice([None, rng.choice(UNITS)])})
         # per-substance HTML table: container type x value kind (plain numbers, quantities in one unit, quantities with mixed prefixes)
         for container in KEYED + POSITIONAL:
             for kind in ('plain', 'quantity', 'mixed'):
@@ -522,6 +546,14 @@ class C20(Property):
                     c.update({'unit': own, 'unit_to': to, 'carry': rng.random() < 0.6})
                 if dflt and -(ilog10(abs(F(xe))) - 2 + 1) >= 305:
                     c['p'] = p
+                cases.append(c)
+            elif r < 0.815:
+                c = {'op': 'number_to_x_cb', 'fmt': rng.choice(FMTS), 'xf': self._float(rng).hex(), 'unit': rng.choice([None, rng.choice(UNITS)])}
+                if rng.random() < 0.3:
+                    c['cb'] = rng.choice(sorted(CALLBACKS_UNC))
+                    c['xef'] = (abs(fx(c['xf'])) * 10.0 ** rng.uniform(-6, -0.5)).hex()
+                else:
+                    c['cb'] = rng.choice(sorted(CALLBACKS))
                 cases.append(c)
             elif r < 0.84:
                 c = self._table_case(rng, rng.choice(KEYED + POSITIONAL), rng.choice(['plain', 'quantity', 'quantity', 'mixed', 'mixed']))
@@ -662,6 +694,18 @@ class C20(Property):
                 m['mode'] = 'both'
                 m['exact'] = uncert_modelled(mag, um, 2 if c['p'] is None else c['p'])
             return m
+        if op == 'number_to_x_cb':
+            from chempy.units import to_unitless
+            number, unc, _to, printed = self._x_args(c)
+            cb = (CALLBACKS_UNC if 'xef' in c else CALLBACKS)[c['cb']]
+            if printed is None:
+                text = cb(number, unc) if unc is not None else cb(number)
+                unit = None
+            else:
+                mag = to_unitless(number, printed)
+                text = cb(mag, to_unitless(unc, printed)) if unc is not None else cb(mag)
+                unit = self._unit_text(c['fmt'], printed)
+            return {'op': 'number_to_x_cb', 'fmt': c['fmt'], 'text': text, 'unit': unit, 'case': c}
         if op == 'html_table':
             from chempy.units import html_of_unit
             _cont, _subst, header, expected = self._table_parts(c)
@@ -712,6 +756,11 @@ class C20(Property):
                 return f(number, unc, to, m['p'])
             if op == 'float_str_w_uncert':
                 return N._float_str_w_uncert(fx(m['xf']), fx(m['xef']), m['p'])
+            if op == 'number_to_x_cb':
+                c0 = m['case']
+                f = getattr(N, 'number_to_scientific_' + c0['fmt'])
+                number, unc, to, _printed = self._x_args(c0)
+                return f(number, unc, to, (CALLBACKS_UNC if 'xef' in c0 else CALLBACKS)[c0['cb']])
             if op == 'html_table':
                 from chempy.printing import as_per_substance_html_table, html
                 cont, subst, header, _exp = self._table_parts(m['case'])
@@ -763,6 +812,44 @@ class C20(Property):
                 return 'roman(%d) = %r has a non-roman character' % (n, s)
             if read_roman(s) != n:
                 return 'roman(%d) = %r reads back as %d' % (n, s, read_roman(s))
+            return None
+        if op == 'number_to_x_cb':
+            from chempy.units import to_unitless
+            f = getattr(N, 'number_to_scientific_' + c['fmt'])
+            number, unc, to, printed = self._x_args(c)
+            cb = (CALLBACKS_UNC if 'xef' in c else CALLBACKS)[c['cb']]
+            mag = number if printed is None else to_unitless(number, printed)
+            T = cb(mag, unc if printed is None else to_unitless(unc, printed)) if unc is not None else cb(mag)   # what the callback says
+            suffix = '' if printed is None else ('\\,' if c['fmt'] == 'latex' else ' ') + self._unit_text(c['fmt'], printed)
+            mT = CB_NUM.match(T)
+            try:
+                text = f(number, unc, to, cb)
+            except ValueError:
+                # a refusal is right exactly when the callback text cannot be split into significand and integer exponent
+                return None if (T.count('e') >= 1 and mT is None) else 'callback text %r refused with ValueError' % T
+            except Exception as ex:
+                return 'number_to_scientific_%s(..., fmt=<callback %s>) raised %s' % (c['fmt'], c['cb'], exc_name(ex))
+            if 'e' not in T:
+                return None if text == T + suffix else 'callback text %r without exponent is printed as %r, expected %r' % (T, text, T + suffix)
+            if mT is None:
+                return 'malformed callback text %r accepted: %r' % (T, text)
+            try:
+                sig, e, rest = read_sci(c['fmt'], text)
+            except Unreadable as ex:
+                return 'cannot read %r back (%s)' % (text, ex)
+            if rest != suffix:
+                return 'unit part: %r is followed by %r, expected %r' % (text, rest, suffix)
+            if e != int(mT.group('exp')):
+                return '%r does not show the exponent of the callback text %r' % (text, T)
+            want = mT.group('sig')
+            if sig is None:
+                nom, _dec, u_ = sig_value(want)
+                if u_ is not None or nom != 1:
+                    return 'significand %r of the callback text omitted in %r although it is not exactly 1' % (want, text)
+            elif sig != want:
+                return '%r does not show the significand %r of the callback text' % (text, want)
+            elif want == '1':
+                return 'significand exactly 1 is printed in %r' % text
             return None
         if op == 'html_table':
             from chempy.printing import as_per_substance_html_table, html
@@ -890,6 +977,8 @@ class C20(Property):
             return '%s:%s%s' % (op, c['fmt'], ':unit' if c.get('unit') else '')
         if op == 'reaction_line':
             return 'reaction_line:%s:%s' % (c['printer'], c['kind'])
+        if op == 'number_to_x_cb':
+            return 'number_to_x_cb:%s:%s%s' % ('unc' if 'xef' in c else 'plain', c['cb'], ':unit' if c.get('unit') else '')
         if op == 'html_table':
             kinds = set(json.dumps(u) for u in c['units'])
             return 'html_table:%s:%s' % (c['container'], 'plain' if c['units'][0] is None else ('quantity' if len(kinds) == 1 else 'mixed-units'))
